@@ -53,6 +53,14 @@ PROPS["C05"] = {
         H(RGP, "c05_l4_check_comparison_int_int", "check_comparison (region)", "dispatch literal-type x stats-type with flip; x op val ==> true", lane="KX"),
         H(RGP, "c05_l4_check_comparison_f64__excluding_known", "check_comparison (region)", "Double/Float stats x Float64/Float32 literal, outside D6", lane="KX"),
         H(RGP, "c05_l4_check_comparison_conservative", "check_comparison (region)", "unsupported literal or non-comparison operator ==> true", lane="KX"),
+        H(RGP, "c05_l4_dispatch_int64", "check_comparison (region, callees by contract)", "Int64 literal, either side: asks check_i64_stats about the column-side operator (mirrored when the literal is on the left)", lane="KX"),
+        H(RGP, "c05_l4_dispatch_timestamp", "check_comparison (region, callees by contract)", "Timestamp literal -> check_i64_stats, mirrored operator", lane="KX"),
+        H(RGP, "c05_l4_dispatch_int32", "check_comparison (region, callees by contract)", "Int32 literal -> check_i32_stats, mirrored operator", lane="KX"),
+        H(RGP, "c05_l4_dispatch_date32", "check_comparison (region, callees by contract)", "Date32 literal -> check_i32_stats, mirrored operator", lane="KX"),
+        H(RGP, "c05_l4_dispatch_float64", "check_comparison (region, callees by contract)", "Float64 literal -> check_f64_stats, mirrored operator", lane="KX"),
+        H(RGP, "c05_l4_dispatch_float32", "check_comparison (region, callees by contract)", "Float32 literal -> check_f64_stats, mirrored operator", lane="KX"),
+        H(RGP, "c05_l4_dispatch_utf8", "check_comparison (region, callees by contract)", "Utf8 literal -> check_utf8_stats, mirrored operator", lane="KX"),
+        H(RGP, "c05_l2_check_utf8_stats_b1", "check_utf8_stats", "ByteArray stats consistent with the row's string and x op val ==> true (byte order)", lane="B", bound="1-byte strings"),
         H(RGP, "c05_l5_step_binary", "row_group_might_match / row_group_definitely_matches (whole bodies)", "inductive step for AND / OR / comparison at the root, all 3VL truth values of the operands: tv==T ==> might; definitely ==> tv==T; callees by contract", lane="KX"),
         H(RGP, "c05_l5_step_not", "row_group_might_match / row_group_definitely_matches (whole bodies)", "inductive step for NOT: e FALSE for a row ==> might(NOT e); definitely(NOT e) never claimed", lane="KX"),
         H(RGP, "c05_l5_step_between", "row_group_might_match / row_group_definitely_matches (whole bodies, carrier Expr)", "inductive step for [NOT] BETWEEN from the contracts of the two generated comparisons", lane="KX"),
@@ -244,6 +252,12 @@ def _c21_harnesses():
         else:
             fn, c = "AccumulatorState::finalize", "Count -> Int64(cnt); Sum/SumInt -> NULL iff !seen; Avg -> NULL iff count==0 else sum/count; Min/Max -> NULL iff empty"
         out.append(H(MAG, n, fn, c, tier="thorough" if slow else "quick"))
+    cm = MAG + "::verif_kani::carr"
+    car = "whole `impl AccumulatorState` + compare_scalar_values compiled verbatim against a carrier ScalarValue"
+    out.append({"name": cm + "::c21_c_merge_min_max", "fn": "AccumulatorState::merge (" + car + ")", "contract": "MIN/MAX merge: empty is the identity, a value is never lost to an empty side, result is the smaller/larger; Int64/Utf8/Date32/Float64, every empty/non-empty combination", "lane": "KX", "bound": None, "tier": "quick", "finding": None})
+    out.append({"name": cm + "::c21_c_update_min_max", "fn": "AccumulatorState::update (" + car + ")", "contract": "MIN/MAX slow path: NULL changes nothing; a value makes the state non-empty and keeps min/max(old, v)", "lane": "KX", "bound": None, "tier": "quick", "finding": None})
+    out.append({"name": cm + "::c21_c_update_fast_min_max", "fn": "AccumulatorState::update_i64/update_f64 (" + car + ")", "contract": "MIN/MAX fast paths: Some(min/max(old, v)), never back to empty", "lane": "KX", "bound": None, "tier": "quick", "finding": None})
+    out.append({"name": cm + "::c21_c_finalize_min_max", "fn": "AccumulatorState::finalize/new (" + car + ")", "contract": "MIN/MAX finalize to NULL exactly for the empty state, else the held value; new() is empty", "lane": "KX", "bound": None, "tier": "quick", "finding": None})
     return out
 
 
